@@ -54,7 +54,7 @@ PROPS = {
     "C14": dict(
         lean_modules=["Liftbridge.Props.C14"],
         gen_sources=["server/protocol/envelope.go"],
-        go_pkg="./server/protocol", test="TestVerifC14",
+        runs=[dict(go_pkg="./server/protocol", test="TestVerifC14"), dict(go_pkg="./server", test="TestVerifC14Server")],
         level="proof",
         assumptions=[
             "protobuf codec is a parameter: Unmarshal(Marshal m) = m is a hypothesis of unmarshal_marshal (validated by the round-trip oracle on the real codec)",
